@@ -89,6 +89,9 @@ def sigdecode_der(sig_der: bytes, use_broken_open_ssl_mechanism: bool = True) ->
     rs_strings, remainder = remove_sequence(sig_der)
     if remainder and not use_broken_open_ssl_mechanism:
         raise UnexpectedDER("trailing bytes after DER signature")
+    if use_broken_open_ssl_mechanism:
+        # the lax parser does not trust the length of the sequence
+        rs_strings += remainder
     r, rest = remove_integer(
         rs_strings, use_broken_open_ssl_mechanism=use_broken_open_ssl_mechanism
     )
